@@ -149,6 +149,10 @@ func GenGenuine(r *rand.Rand, w *World, o GenOpts) *Genuine {
 		}
 		a.IssueInstant = sim.S(randInstant(r, w.Now.Add(-time.Duration(r.IntN(100))*time.Second)))
 		a.NameID = sim.S(val("user" + fmt.Sprint(r.IntN(1000)) + "@example.org"))
+		if o.Values && r.IntN(10) == 0 {
+			// a long identifier in a script whose characters take several bytes each
+			a.NameID = sim.S(strings.Repeat(pick(r, []string{"\u6f22", "\u00fc", "\U0001f600", "\u0416\u0434"}), 90+r.IntN(161)))
+		}
 		a.Confs[0].InResponseTo = rec.InResponseTo
 		if r.IntN(4) == 0 {
 			a.Confs[0].InResponseTo = nil // optional in the confirmation data, whatever the Response says
